@@ -18,7 +18,54 @@ import (
 	"verif/harness/internal/wmkit"
 )
 
-const findReweight = "C10-branch-child-weights-not-authenticated"
+const (
+	findReweight = "C10-branch-child-weights-not-authenticated"
+	findKind     = "C10-node-kind-not-hashed"
+)
+
+// asValueRecord builds the value record whose hash equals the hash of the given branch or short record
+// (the node hash has no domain separation): branch H(BE64(sum) || 16 child hashes), short H(key || child hash),
+// value H(BE64(weight) || value).
+func asValueRecord(n *wmpt.PersistNodeBase) *wmpt.PersistNodeBase {
+	var pre []byte
+	switch {
+	case n.Branch != nil:
+		var sum uint64
+		body := make([]byte, 0, 16*32)
+		for i := 0; i < 16; i++ {
+			if i < len(n.Branch.Children) && len(n.Branch.Children[i]) >= 40 {
+				body = append(body, n.Branch.Children[i][:32]...)
+				sum += binary.BigEndian.Uint64(n.Branch.Children[i][32:40])
+			} else {
+				body = append(body, refwmpt.Empty...)
+			}
+		}
+		return &wmpt.PersistNodeBase{Value: &wmpt.PersistNodeValue{Value: body, Weight: sum, Hash: n.Branch.Hash}}
+	case n.Short != nil && len(n.Short.Key) >= 8 && len(n.Short.Value) == 40:
+		pre = append(append([]byte{}, n.Short.Key...), n.Short.Value[:32]...)
+		return &wmpt.PersistNodeBase{Value: &wmpt.PersistNodeValue{Value: pre[8:], Weight: binary.BigEndian.Uint64(pre[:8]), Hash: n.Short.Hash}}
+	}
+	return nil
+}
+
+// kindConfusion reports whether proof ends in a value record standing in for a non-value node of the honest proof.
+func kindConfusion(proof, honest []byte) bool {
+	_, fn, err := decodeProof(proof)
+	if err != nil || len(fn) == 0 || fn[len(fn)-1].Value == nil {
+		return false
+	}
+	last := fn[len(fn)-1].Value
+	_, hn, err := decodeProof(honest)
+	if err != nil {
+		return false
+	}
+	for _, n := range hn {
+		if v := asValueRecord(n); v != nil && v.Value.Weight == last.Weight && bytes.Equal(v.Value.Value, last.Value) {
+			return true
+		}
+	}
+	return false
+}
 
 func TestMain(m *testing.M) {
 	ev.SetMeta(ev.Meta{
@@ -155,6 +202,10 @@ func judge(t fataler, w *world, block uint64, proof []byte, honest []byte, what 
 		ev.Excluded(findReweight + ": accepted forgery that differs from the honest proof only in branch child weights")
 		return "known-reweight-forgery"
 	}
+	if ev.Known(findKind) && kindConfusion(proof, honest) {
+		ev.Excluded(findKind + ": accepted forgery whose last element is a value record with the hash of a branch/short node")
+		return "known-kind-confusion-forgery"
+	}
 	t.Fatalf("FORGERY (%s): block %d verifies to the trusted root %x with value %x, the true owner's value is %x (in range: %v)\nproof %x\nhonest %x", what, block, h, v, owner.Value, ok, proof, honest)
 	return ""
 }
@@ -177,6 +228,9 @@ func tamper(rt *rapid.T, nodes *[]*wmpt.PersistNodeBase, other []*wmpt.PersistNo
 	if allowReweight {
 		kinds = append(kinds, "reweight-keep-sum", "reweight-keep-sum")
 	}
+	if !ev.Known(findKind) {
+		kinds = append(kinds, "kind-confusion", "kind-confusion")
+	}
 	kind := gen.Pick(rt, kinds, label+"kind")
 	childIdx := func(b *wmpt.PersistNodeBranch) []int {
 		var idx []int
@@ -188,6 +242,19 @@ func tamper(rt *rapid.T, nodes *[]*wmpt.PersistNodeBase, other []*wmpt.PersistNo
 		return idx
 	}
 	switch kind {
+	case "kind-confusion":
+		// replace a branch/short element by the value record with the same hash and cut the proof there
+		var cands []int
+		for i, n := range ns {
+			if asValueRecord(n) != nil {
+				cands = append(cands, i)
+			}
+		}
+		if len(cands) == 0 {
+			return ""
+		}
+		i := gen.Pick(rt, cands, label+"at")
+		*nodes = append(append([]*wmpt.PersistNodeBase{}, ns[:i]...), asValueRecord(ns[i]))
 	case "reweight-keep-sum":
 		if len(branches) == 0 {
 			return ""
@@ -427,6 +494,34 @@ func TestWitnesses(t *testing.T) {
 		h, v, err := wmpt.New(nil, nil).VerifyBlockProof(2, encodeProof(nodes))
 		if err == nil && bytes.Equal(h, root) && string(v) != "first" {
 			return fmt.Sprintf("two keys with weights 5 and 3; the proof for block 7 with the branch's claimed child weights changed to 1 and 7 verifies block 2 to the real root with value %q (true owner's value \"first\")", v)
+		}
+		return ""
+	})
+}
+
+func TestWitnessKindConfusion(t *testing.T) {
+	if ev.Known(findKind) {
+		ev.Excluded(findKind + ": the tamper kind 'value record standing in for a branch/short node' is not drawn")
+	}
+	ev.Witness(t, findKind, func() string {
+		k1, k2 := make([]byte, 32), make([]byte, 32)
+		k2[0] = 0x10
+		tr := wmpt.New(nil, nil)
+		_ = tr.Update(k1, []byte("first"), 5)
+		_ = tr.Update(k2, []byte("second"), 3)
+		root := tr.Root()
+		_, proof, err := tr.GetBlockProof(2)
+		if err != nil {
+			return ""
+		}
+		_, nodes, err := decodeProof(proof)
+		if err != nil || nodes[0].Branch == nil {
+			return ""
+		}
+		forged := encodeProof([]*wmpt.PersistNodeBase{asValueRecord(nodes[0])})
+		h, v, err := wmpt.New(nil, nil).VerifyBlockProof(2, forged)
+		if err == nil && bytes.Equal(h, root) && string(v) != "first" {
+			return fmt.Sprintf("two keys; a one-element proof consisting of a value record {weight 8, value = the root branch's 16 child hashes} verifies block 2 to the real root with a %d-byte value that is not the owner's", len(v))
 		}
 		return ""
 	})
